@@ -95,4 +95,27 @@ theorem instanceStep_bridge (frm upto step : Nat) (hs : 1 ≤ step) (dur : ℤ) 
   simp only [toTrees, once_tree, List.cons_append, List.nil_append]
   rw [loop_rounds upto step hs dur (upto + 1) (frm + step) (by omega)]
 
+/-! ### `NewStep` (core/schedule/step.go) -/
+
+theorem toTrees_flatMap_single {α : Type} (l : List α) (f : α → Sched) :
+    toTrees (l.flatMap (fun i => [f i])) = l.map (fun i => toTree (f i)) := by
+  induction l with
+  | nil => simp [toTrees]
+  | cons x r ih =>
+    simp only [List.flatMap_cons, List.map_cons]
+    rw [toTrees_append, ih]
+    simp [toTrees]
+
+/-- what the source builds for `step(from, to, step, duration)`: ONE const part when from = to, otherwise the composite
+of the const parts with rates from, from+step, from+2·step, … ≤ to, each of the same duration, in this order -/
+theorem step_bridge (rFrom rTo : ℝ) (step duration : ℤ) :
+    toTree (NewStep rFrom rTo step duration) =
+      if rFrom = rTo then toTree (NewConst rFrom duration)
+      else Tree.comp ((Go.loopLE rFrom rTo ((step : ℤ) : ℝ)).map (fun i => toTree (NewConst i duration))) := by
+  unfold NewStep
+  by_cases h : rFrom = rTo
+  · simp [h]
+  · simp only [h, if_false, List.nil_append, toTree]
+    rw [toTrees_flatMap_single]
+
 end Pandora.Bridge.C02IStep
